@@ -26,7 +26,8 @@ def findAt (pred : List Char → Bool) : List Char → Option (List Char × List
 
 def startsWith (pre : List Char) (s : List Char) : Bool := pre.isPrefixOf s
 
-/-- `_replace_all (str, "%c", new)`: left to right, the replacement is not rescanned -/
+/-- `_replace_all (str, "%c", new)` in one pass: left to right, the replacement is not rescanned
+    (`replaceAllCpp_eq` in `SplitProofs.lean`: this is what the loop below computes) -/
 def replaceAll (c : Char) (new : List Char) : List Char → List Char
   | [] => []
   | a :: rest =>
@@ -34,6 +35,17 @@ def replaceAll (c : Char) (new : List Char) : List Char → List Char
     match rest with
     | [] => [a]
     | b :: rest' => if a = '%' ∧ b = c then new ++ replaceAll c new rest' else skip ()
+
+/-- `_replace_all` as written: `while ((pos = str.find (old, pos)) != npos) { str.replace (pos, 2, new); pos += new.length (); }`
+    — the text before `pos` is final, the search continues in the text after the replacement (fuel = iterations) -/
+def replaceAllCppF : Nat → Char → List Char → List Char → List Char
+  | 0, _, _, s => s
+  | f + 1, c, new, s =>
+    match findAt (startsWith [c]) s with
+    | none => s
+    | some (a, b) => a ++ new ++ replaceAllCppF f c new (b.drop 1)
+
+def replaceAllCpp (c : Char) (new : List Char) (s : List Char) : List Char := replaceAllCppF s.length c new s
 
 /-! ### the seven patched modifiers -/
 
@@ -136,7 +148,7 @@ inductive InitError | percentX | exclusive | repeated
 deriving DecidableEq, Repr
 
 def rewrite (fmt : List Char) : List Char :=
-  replaceAll 'T' "%H:%M:%S".toList (replaceAll 'R' "%H:%M".toList (replaceAll 'r' "%I:%M:%S %p".toList fmt))
+  replaceAllCpp 'T' "%H:%M:%S".toList (replaceAllCpp 'R' "%H:%M".toList (replaceAllCpp 'r' "%I:%M:%S %p".toList fmt))
 
 /-- `StringFromTime::init` -/
 def SFT.init (fmt : List Char) (localTime : Bool) : Except InitError SFT :=
